@@ -178,6 +178,16 @@ OnSend ==
   /\ conn' = [conn EXCEPT ![Ev.c].st = "garbaged"]
   /\ UNCHANGED <<sc, up, tracker, nextId, pend, evp, db, exp, cur>> /\ Step
 
+\* a peer that sends requests and never reads the replies: its session blocks in the write; this must not
+\* disturb the server task or any other session (the reads it causes are not compared: st = "flooding")
+OnFlood ==
+  /\ Is("flood") /\ conn[Ev.c].st = "served"
+  /\ conn' = [conn EXCEPT ![Ev.c].st = "flooding"]
+  /\ UNCHANGED <<sc, up, tracker, nextId, pend, evp, db, exp, cur>> /\ Step
+OnFloodReads ==
+  /\ (Is("reads") \/ Is("flood_done")) /\ exp = <<>> /\ (\E c \in 0..63 : conn[c].st = "flooding")
+  /\ UNCHANGED <<sc, up, tracker, nextId, conn, pend, evp, db, exp, cur>> /\ Step
+
 OnPartial ==
   /\ Is("partial") /\ MbapHead(Ev.bytes).st = "more" /\ conn[Ev.c].st = "served"
   /\ UNCHANGED <<sc, up, tracker, nextId, conn, pend, evp, db, exp, cur>> /\ Step
@@ -186,7 +196,8 @@ OnPartial ==
 OnPeerView ==
   /\ Is("peer_view")
   /\ LET s0 == conn[Ev.c].st IN
-       IF s0 \in {"rejected", "evicted", "garbaged", "gone", "tlsfailed", "hs_ended"} \/ ~up
+       IF s0 = "flooding" THEN Ev.outcome \in {"data", "eof"}      \* its backlog of replies, then the end
+       ELSE IF s0 \in {"rejected", "evicted", "garbaged", "gone", "tlsfailed", "hs_ended"} \/ ~up
        THEN Ev.outcome = "eof" /\ (s0 = "rejected" => Ev.n = 0)
        ELSE Ev.outcome = "open"
   /\ UNCHANGED <<sc, up, tracker, nextId, conn, pend, evp, db, exp, cur>> /\ Step
@@ -234,7 +245,7 @@ OnTlscStall ==
   /\ UNCHANGED <<sc, up, tracker, nextId, conn, pend, evp, db, exp, cur>> /\ Step
 
 TraceNext == OnTlscCfg \/ OnCState \/ OnTlsc \/ OnTlscStall \/ OnWildCfg \/ OnWild \/ OnCfg \/ OnListening \/ OnInfo \/ OnConnecting \/ OnFilter \/ OnTrack \/ OnConnected \/ OnUntrack
-             \/ OnTls \/ OnReq \/ OnReads \/ OnWrite \/ OnAuth \/ OnRsp \/ OnClose \/ OnSend \/ OnPartial
+             \/ OnTls \/ OnFlood \/ OnFloodReads \/ OnReq \/ OnReads \/ OnWrite \/ OnAuth \/ OnRsp \/ OnClose \/ OnSend \/ OnPartial
              \/ OnPeerView \/ OnCmd
 
 TraceSpec == TraceInit /\ [][TraceNext]_vars
